@@ -114,6 +114,87 @@ fn verify_with(rd: &RevDef, req: &ReqSpec, proof: &Value, nonce: &Nonce, rc: Opt
     }
 }
 
+/// one presentation over several credentials of the same definition / registry; `with_nr[i]` says
+/// whether sub-proof i carries a non-revocation part.  Returns the proof and the seven blinders per part.
+fn build_multi(rd: &RevDef, hs: &[&Holder], req: &ReqSpec, reg: &RevocationRegistry, with_nr: &[bool], nonce: &Nonce) -> Result<(Value, Vec<Vec<String>>), String> {
+    let e = |x: Error| x.to_string();
+    let cd = &rd.cd;
+    let mut pb = Prover::new_proof_builder().map_err(e)?;
+    pb.add_common_attribute("master_secret").map_err(e)?;
+    let mut tapes = vec![];
+    for (h, nr) in hs.iter().zip(with_nr.iter()) {
+        vf::tape_start();
+        let r = pb.add_sub_proof_request(&req.build()?, &cd.schema, &cd.non_schema, &h.cred.sig, &h.cred.values, &cd.pk,
+                                         if *nr { Some(reg) } else { None }, if *nr { h.cred.witness.as_ref() } else { None });
+        let tape = vf::tape_take();
+        r.map_err(e)?;
+        tapes.push(tape.iter().filter(|t| t.0 == "random_mod_order").take(7).map(|t| t.2.clone()).collect::<Vec<String>>());
+    }
+    let proof = pb.finalize(nonce).map_err(e)?;
+    Ok((jv(&proof), tapes))
+}
+
+fn verify_multi(rd: &RevDef, req: &ReqSpec, n: usize, proof: &Value, nonce: &Nonce, rc: &RegCtx, reg: &RevocationRegistry) -> Out<bool> {
+    let cd = &rd.cd;
+    match from_jv::<Proof>(proof) {
+        Ok(p) => guard(|| {
+            let mut pv = Verifier::new_proof_verifier()?;
+            pv.add_common_attribute("master_secret")?;
+            for _ in 0..n {
+                let r = req.build().map_err(|e| Error::new(ErrorKind::InvalidState, e))?;
+                pv.add_sub_proof_request(&r, &cd.schema, &cd.non_schema, &cd.pk, Some(&rc.key_pub), Some(reg))?;
+            }
+            pv.verify(&p, nonce)
+        }),
+        Err(e) => Out::Err(format!("decode: {}", e)),
+    }
+}
+
+fn nr_ctx(rd: &RevDef, rc: &RegCtx, h: &Holder, nrp: &Value, ctape: &[String], verify_valid: &BTreeSet<u32>, verify_reg: &RevocationRegistry) -> Value {
+    let rcred = jv(&h.cred.sig)["r_credential"].clone();
+    let c = &nrp["c_list"];
+    json!({
+        "key": rd.exps, "x": rd.exps["x"], "sk": rd.exps["sk"], "gamma": rc.gamma_hex(), "L": rc.l,
+        "valid": verify_valid.iter().collect::<Vec<_>>(),
+        "cred": {"i": h.idx, "m2": rcred["m2"], "vr2": rcred["vr_prime_prime"], "c": rcred["c"], "witness_valid": h.wview.iter().collect::<Vec<_>>()},
+        "ctape": ctape,
+        "accum_canon": g2_bytes(jv(verify_reg)["accum"].as_str().unwrap_or("")),
+        "z_canon": from_jv::<vf::Pair>(&jv(&rc.key_pub)["z"]).map(|z| hex(&z.to_bytes().unwrap_or_default())).unwrap_or_default(),
+        "clist_canon": {"e": g1_bytes(c["e"].as_str().unwrap_or("")), "d": g1_bytes(c["d"].as_str().unwrap_or("")),
+            "a": g1_bytes(c["a"].as_str().unwrap_or("")), "g": g1_bytes(c["g"].as_str().unwrap_or("")),
+            "w": g2_bytes(c["w"].as_str().unwrap_or("")), "s": g2_bytes(c["s"].as_str().unwrap_or("")), "u": g2_bytes(c["u"].as_str().unwrap_or(""))},
+    })
+}
+
+#[allow(clippy::too_many_arguments)]
+fn emit_multi(id: &str, rd: &RevDef, rc: &RegCtx, req: &ReqSpec, hs: &[&Holder], proof: &Value, tapes: &[Vec<String>], nonce: &Nonce,
+              verify_valid: &BTreeSet<u32>, verify_reg: &RevocationRegistry, res: &Out<bool>, expect_accept: bool, kind: &str) {
+    let mut creds = vec![];
+    for (i, h) in hs.iter().enumerate() {
+        let mut cj = cred_json(&rd.cd, req, true, true);
+        let nrp = &proof["proofs"][i]["non_revoc_proof"];
+        if !nrp.is_null() {
+            cj["nr_ctx"] = nr_ctx(rd, rc, h, nrp, &tapes[i], verify_valid, verify_reg);
+        }
+        creds.push(cj);
+    }
+    let mut oracles = vec![];
+    let accepted = matches!(res, Out::Ok(true));
+    if accepted != expect_accept {
+        oracles.push(json!({"name": if expect_accept {"valid_holder_accepted"} else {"nonrevoc_enforced"}, "ok": false,
+            "detail": format!("{}: verifier {} ({} {}), expected {}", kind, if accepted {"accepts"} else {"rejects"}, res.tag(), res.msg(), if expect_accept {"accept"} else {"reject"})}));
+    }
+    if matches!(res, Out::Panic(_)) {
+        oracles.push(json!({"name":"verify_no_panic","ok":false,"detail":format!("{}: verify panicked: {}", kind, res.msg())}));
+    }
+    let mut implv = out_bool_json(res);
+    implv["oracles"] = json!(oracles);
+    emit(&json!({"id": id, "op": "verify",
+        "in": {"backend": backend_str(), "mode": mode_str(), "common": ["master_secret"], "creds": creds, "proof": proof,
+               "nonce": nonce.to_dec().unwrap_or_default()},
+        "impl": implv, "class": {"kind": kind, "ncred": hs.len(), "alteration": if expect_accept {"none"} else {kind}}}));
+}
+
 #[allow(clippy::too_many_arguments)]
 fn emit_case(id: &str, rd: &RevDef, rc: &RegCtx, req: &ReqSpec, h: &Holder, proof: &Value, ctape: &[String], nonce: &Nonce,
              verify_valid: &BTreeSet<u32>, verify_reg: &RevocationRegistry, res: &Out<bool>, expect_accept: bool, kind: &str,
@@ -171,13 +252,16 @@ fn gen_nr(thorough: bool, rng: &mut Rng) -> Result<(), String> {
         let mut valid: BTreeSet<u32> = if by_default { (1..=l).collect() } else { BTreeSet::new() };
         // three holders
         let mut holders: Vec<Holder> = vec![];
+        let mut shared_secret = String::new();
         for idx in [1u32, 2, 3] {
             let mut known = BTreeMap::new();
             for a in &cd.attrs {
                 known.insert(a.clone(), if a == "age" { format!("{}", 20 + idx) } else { format!("{}", rng.range(0, 100000)) });
             }
             let mut hidden = BTreeMap::new();
-            hidden.insert("master_secret".to_string(), dec_of_hex(&rng.hex_bits(250)));
+            // holders 2 and 3 are one person (same link secret): used for two-credential presentations
+            if idx != 3 { shared_secret = dec_of_hex(&rng.hex_bits(250)); }
+            hidden.insert("master_secret".to_string(), shared_secret.clone());
             let cred = issue(cd, &known, &hidden, &format!("holder-{}", idx), Some((&mut rc, idx)))?;
             // earlier holders consume the issuance delta (on demand)
             if let Some(d) = &cred.delta {
@@ -201,6 +285,18 @@ fn gen_nr(thorough: bool, rng: &mut Rng) -> Result<(), String> {
             cred: Credential { sig: holders[0].cred.sig.try_clone().map_err(e)?, values: holders[0].cred.values.try_clone().map_err(e)?,
                                witness: holders[0].cred.witness.clone(), delta: None, rev_idx: Some(1) },
             wview: holders[0].wview.clone(), factors_vr: String::new() };
+        // state 0, two credentials of one holder (2 and 3), both with a non-revocation part: accepted;
+        // the transcript interleaves the parts per sub-proof (T-values of part i, then primary i)
+        {
+            let hs = [&holders[1], &holders[2]];
+            let (p, tapes) = build_multi(&rd, &hs, &req, &reg0, &[true, true], &nonce)?;
+            let r = verify_multi(&rd, &req, 2, &p, &nonce, &rc, &reg0);
+            emit_multi(&format!("nr/{}/two-valid-s0", run), &rd, &rc, &req, &hs, &p, &tapes, &nonce, &valid0, &reg0, &r, true, "valid_current");
+            // the first part only (the second sub-proof has no part although a registry is supplied): rejected
+            let (p, tapes) = build_multi(&rd, &hs, &req, &reg0, &[true, false], &nonce)?;
+            let r = verify_multi(&rd, &req, 2, &p, &nonce, &rc, &reg0);
+            emit_multi(&format!("nr/{}/two-s0-second-omitted", run), &rd, &rc, &req, &hs, &p, &tapes, &nonce, &valid0, &reg0, &r, false, "omitted_in_one_of_two");
+        }
         // state 0: everybody valid
         {
             let r = verify_with(&rd, &req, &p_h1_s0.proof, &nonce, Some(&rc), Some(&reg0));
@@ -272,6 +368,49 @@ fn gen_nr(thorough: bool, rng: &mut Rng) -> Result<(), String> {
             p2["aggregated_proof"]["c_list"] = json!(merged);
             let r2 = verify_with(&rd, &req, &p2, &nonce, Some(&rc), Some(&reg1));
             emit_case(&format!("nr/{}/transplant", run), &rd, &rc, &req, &holders[0], &p2, &donor.ctape, &nonce, &valid1, &reg1, &r2, false, "transplanted_non_revocation_part", None);
+        }
+        // (i) two credentials of one holder, the revoked one (2) without its part, the valid one (3) with it
+        {
+            for (order, wn) in [([1usize, 2usize], [false, true]), ([2usize, 1usize], [true, false])] {
+                let hs = [&holders[order[0]], &holders[order[1]]];
+                let (p, tapes) = build_multi(&rd, &hs, &req, &reg1, &wn, &nonce)?;
+                let r = verify_multi(&rd, &req, 2, &p, &nonce, &rc, &reg1);
+                emit_multi(&format!("nr/{}/two-omitted-{}{}", run, order[0], order[1]), &rd, &rc, &req, &hs, &p, &tapes, &nonce, &valid1, &reg1, &r, false, "omitted_in_one_of_two");
+            }
+        }
+        // (j) the legacy field x_list.m2 shown to the DEFAULT verifier (legacy proofs not accepted):
+        //     it must be ignored — the part stays linked to the primary proof's response for m2
+        {
+            // honest proof of a valid holder, field present with an arbitrary value: same verdict as without it
+            let p = build_proof(&rd, &holders[0], &req, Some(&reg1), &nonce)?;
+            let mut p2 = p.proof.clone();
+            p2["proofs"][0]["non_revoc_proof"]["x_list"]["m2"] = json!(scalar(rng).0);
+            let r = verify_with(&rd, &req, &p2, &nonce, Some(&rc), Some(&reg1));
+            emit_case(&format!("nr/{}/legacy-field-honest", run), &rd, &rc, &req, &holders[0], &p2, &p.ctape, &nonce, &valid1, &reg1, &r, true, "legacy_m2_field_ignored", None);
+            // hybrid: primary credential of the revoked holder (2) with the non-revocation credential and
+            // witness of the valid holder (1), proven with the ordinary builder; the field carries
+            // m2-hat + c_H*(m2_B - m2_A), which would make the part verify if it were used
+            let a = &holders[1];
+            let b = &holders[0];
+            let mut sigj = jv(&a.cred.sig);
+            sigj["r_credential"] = jv(&b.cred.sig)["r_credential"].clone();
+            let hybrid = Holder { idx: b.idx, known: a.known.clone(),
+                cred: Credential { sig: from_jv(&sigj)?, values: a.cred.values.try_clone().map_err(e)?, witness: b.cred.witness.clone(), delta: None, rev_idx: Some(b.idx) },
+                wview: b.wview.clone(), factors_vr: String::new() };
+            let p = build_proof(&rd, &hybrid, &req, Some(&reg1), &nonce)?;
+            let r = verify_with(&rd, &req, &p.proof, &nonce, Some(&rc), Some(&reg1));
+            emit_case(&format!("nr/{}/hybrid", run), &rd, &rc, &req, &hybrid, &p.proof, &p.ctape, &nonce, &valid1, &reg1, &r, false, "transplanted_non_revocation_part", None);
+            let m2a = vf::GroupOrderElement::from_string(jv(&a.cred.sig)["r_credential"]["m2"].as_str().unwrap_or("")).map_err(e)?;
+            let m2b = vf::GroupOrderElement::from_string(jv(&b.cred.sig)["r_credential"]["m2"].as_str().unwrap_or("")).map_err(e)?;
+            let ch = bn::BigNumber::from_dec(p.proof["aggregated_proof"]["c_hash"].as_str().unwrap_or("")).map_err(e)?;
+            let m2hat = bn::BigNumber::from_dec(p.proof["proofs"][0]["primary_proof"]["eq_proof"]["m2"].as_str().unwrap_or("")).map_err(e)?;
+            let chz = vf::bignum_to_group_element_reduce(&ch).map_err(e)?;
+            let m2hz = vf::bignum_to_group_element_reduce(&m2hat).map_err(e)?;
+            let inj = m2hz.add_mod(&chz.mul_mod(&m2b.sub_mod(&m2a).map_err(e)?).map_err(e)?).map_err(e)?;
+            let mut p3 = p.proof.clone();
+            p3["proofs"][0]["non_revoc_proof"]["x_list"]["m2"] = json!(inj.to_string().map_err(e)?);
+            let r3 = verify_with(&rd, &req, &p3, &nonce, Some(&rc), Some(&reg1));
+            emit_case(&format!("nr/{}/hybrid-legacy-m2", run), &rd, &rc, &req, &hybrid, &p3, &p.ctape, &nonce, &valid1, &reg1, &r3, false, "transplanted_with_legacy_m2", None);
         }
         // (h) no registry supplied: the non-revocation part is not checked and the primary part alone decides
         {
